@@ -54,7 +54,7 @@ def shown_ids(gres):
         for m in fam["metrics"]:
             k = "-"
             for n, v in m["labels"]:
-                if n == "k":
+                if n == "k" and v != "common":       # "common" = the registry-level label of the common-label variant
                     k = v
             ids.add((fam["name"], k))
     return ids
@@ -75,13 +75,20 @@ def run(ctx):
     L = 4 if ctx.quick else 4
     # ---- 1. TLC: design properties + all behaviours of length L as replay material
     mc = mc_module("MCRegistryGen", "RegistryGen", {"MCUniv": univ_tla(univ)})
-    cfg = "CONSTANTS\n  Collectors <- MCUniv\n  MaxLen = %d\nSPECIFICATION HSpec\nINVARIANTS Emit DistinctIds DimsAgree\nPROPERTY DimsStable\nCHECK_DEADLOCK FALSE\n" % L
+    cfg = "CONSTANTS\n  Collectors <- MCUniv\n  CommonConst = FALSE\n  MaxLen = %d\nSPECIFICATION HSpec\nINVARIANTS Emit DistinctIds DimsAgree\nPROPERTY DimsStable\nCHECK_DEADLOCK FALSE\n" % L
     r = tlc(ctx, "RegistryGen", cfg, mc_text=mc, mc_name="MCRegistryGen", workers=8, label="gen", timeout=3000, heap="8g")
     if not r["ok"]:
         raise ToolError("RegistryGen failed: %s\n%s" % (r["violated"], r["output"][-3000:]))
     behaviours = printed_values(r["output"], "REPLAY")
     if not behaviours:
         raise ToolError("no behaviours printed")
+    # the same universe on a registry created with the common label k: collectors carrying the constant label k are never
+    # admitted and must leave no trace either (shorter histories)
+    cfgc = cfg.replace("CommonConst = FALSE", "CommonConst = TRUE").replace("MaxLen = %d" % L, "MaxLen = 3")
+    rc = tlc(ctx, "RegistryGen", cfgc, mc_text=mc, mc_name="MCRegistryGen", workers=8, label="gencommon", timeout=3000, heap="8g")
+    if not rc["ok"]:
+        raise ToolError("RegistryGen (common label) failed: %s\n%s" % (rc["violated"], rc["output"][-3000:]))
+    common_behaviours = printed_values(rc["output"], "REPLAY")
     # thorough: additionally sample longer behaviours by simulation
     if not ctx.quick:
         cfg5 = cfg.replace("MaxLen = %d" % L, "MaxLen = 7")
@@ -90,15 +97,17 @@ def run(ctx):
     # ---- 2. replay every behaviour on a fresh real Registry (in chunks: the results are large)
     nconf = 0
     CH = 20000
-    for off in range(0, len(behaviours), CH):
-        chunk = behaviours[off:off + CH]
+    tagged = [(b, False) for b in behaviours] + [(b, True) for b in common_behaviours]
+    for off in range(0, len(tagged), CH):
+        chunk = [b for b, _ in tagged[off:off + CH]]
+        commons = [cm for _, cm in tagged[off:off + CH]]
         jobs = []
         for i, b in enumerate(chunk):
             used = []
             for e in b:
                 if e["c"] not in used:
                     used.append(e["c"])
-            calls = [{"op": "registry", "as": "r"}]
+            calls = [{"op": "registry", "as": "r", "custom": True, "labels": [["k", "common"]]} if commons[i] else {"op": "registry", "as": "r"}]
             for c in used:
                 calls += ctor_calls(c, univ[c])
             pre = len(calls)
@@ -175,7 +184,7 @@ def run(ctx):
                 f.write(json.dumps(e) + "\n")
         events_total += len(evs)
         mct = mc_module("MCRegistryTrace", "RegistryTrace", {"MCUniv": univ_tla(full)})
-        cfgt = "CONSTANTS\n  Collectors <- MCUniv\nSPECIFICATION TSpec\nPOSTCONDITION TraceAccepted\nCHECK_DEADLOCK FALSE\n"
+        cfgt = "CONSTANTS\n  Collectors <- MCUniv\n  CommonConst = FALSE\nSPECIFICATION TSpec\nPOSTCONDITION TraceAccepted\nCHECK_DEADLOCK FALSE\n"
         if i % 10 == 0 or not ctx.quick and i % 4 == 0:
             pass
         plans[i] = (pre, plan, tp, evs)
@@ -189,7 +198,7 @@ def run(ctx):
             for i in part:
                 f.write(open(plans[i][2]).read())
         mct = mc_module("MCRegistryTrace", "RegistryTrace", {"MCUniv": univ_tla(full)})
-        cfgt = "CONSTANTS\n  Collectors <- MCUniv\nSPECIFICATION TSpec\nPOSTCONDITION TraceAccepted\nCHECK_DEADLOCK FALSE\n"
+        cfgt = "CONSTANTS\n  Collectors <- MCUniv\n  CommonConst = FALSE\nSPECIFICATION TSpec\nPOSTCONDITION TraceAccepted\nCHECK_DEADLOCK FALSE\n"
         rt = tlc(ctx, "RegistryTrace", cfgt, mc_text=mct, mc_name="MCRegistryTrace", workers=1, env={"TRACE": tp}, coverage=False, deque=True,
                  label="trace%d" % off, expect_ok=False, count=False, timeout=1800)
         m = re.search(r'TRACE-REJECTED-AT",\s*(\d+)', rt["output"])
@@ -216,7 +225,7 @@ def run(ctx):
     ctx.cov["concurrent_registry"] = cs
     ctx.cov.update({
         "traces_validated_against_impl": nconf + ntrace_ok + cs["conforming"] + cs["histories"],
-        "behaviours_replayed": len(behaviours), "behaviours_conforming": nconf,
+        "behaviours_replayed": len(behaviours) + len(common_behaviours), "behaviours_on_common_label_registry": len(common_behaviours), "behaviours_conforming": nconf,
         "recorded_traces": len(plans), "recorded_trace_events": events_total, "recorded_traces_accepted": ntrace_ok,
         "samples": [{"behaviour": behaviours[len(behaviours) // 2]}, {"trace_prefix": plans[0][3][:8] if len(plans[0]) == 4 else []}],
         "exhaustive": True,
@@ -298,7 +307,7 @@ def replay(path):
             for e in evs:
                 f.write(json.dumps(e) + "\n")
         mct = mc_module("MCRegistryTrace", "RegistryTrace", {"MCUniv": univ_tla(univ)})
-        cfgt = "CONSTANTS\n  Collectors <- MCUniv\nSPECIFICATION TSpec\nPOSTCONDITION TraceAccepted\nCHECK_DEADLOCK FALSE\n"
+        cfgt = "CONSTANTS\n  Collectors <- MCUniv\n  CommonConst = FALSE\nSPECIFICATION TSpec\nPOSTCONDITION TraceAccepted\nCHECK_DEADLOCK FALSE\n"
         rt = tlc(ctx, "RegistryTrace", cfgt, mc_text=mct, mc_name="MCRegistryTrace", workers=1, env={"TRACE": tp}, coverage=False, deque=True, expect_ok=False, count=False)
         bad = "TRACE-REJECTED-AT" in rt["output"]
         print("verdict:", "rejected by RegistryTrace" if bad else "accepted by RegistryTrace")
